@@ -103,6 +103,11 @@ class C17(Prop):
                 c["z"] = [min(v, 100) for v in c["z"]]
             if big and c.get("zcontainer") in ("np_int32", "np_uint8", "np_int8"):
                 c["zcontainer"] = "np_int64"
+            if ep in ("bias", "marginal") and c["container"] in ("np_uint8", "np_int8", "np_uint32", "pl_uint32") and c["w"] is not None and "rows2d" not in c:
+                # narrow observations, predictions AND weights: products weight * value beyond the 8-bit range
+                c["y"] = [min(8 * v, 100) for v in c["y"]]
+                c["z"] = [min(8 * v, 100) for v in c["z"]]
+                c.pop("zcontainer", None)
             if ep == "score" and rng.random() < 0.3:
                 # ElementaryScore with eta given as a Python int, as in its docstring; eta strictly inside the data range so that
                 # the score is non-zero on both sides (y < eta <= z and z < eta <= y)
